@@ -23,6 +23,7 @@ RULE = ("case = one word over rows (key incl. null, value null/non-null, mask bi
         "last-equals-reduction, dtype (integer/temporal stay exact); non-trivial = two rows of one "
         "group, or a null/rejected row before another row")
 ASSUMPTIONS = [
+    "the running sum before a group's first non-null value must be exactly 0",
     "boundary family 'long-groups': group sizes around 127/128, 255/256, 32767/32768 with int8 / int16 group codes and int8 / uint8 / f8 values; exact linear-time reference",
     "n <= 4 rows (quick) / 5-6 (thorough); G <= 3",
     "cummin/cummax with skip_na=False are checked only up to the group's first null (the statement "
